@@ -32,6 +32,7 @@ def run(ctx, rep):
             CF.check_sections(fx, rep, "C09.3", wv, seqs)
         CF.check_order(fx, rep, "C09.6", wv)
         ns = CF.check_string_refs(fx, rep, "C09.7", wv)
+        CF.check_string_table_model(fx, rep, "C09.7")
         rep.floor("C09.7", ns, 8, "string-reference field cases (8 fields: 3 in Class, 5 in Member)")
         BR.check_method_effects(fx, rep, "C09.3", "cache")
         BR.check_class_header_arms(fx, rep, "C09.6", "cache")
